@@ -246,6 +246,13 @@ pub fn check_serializer_roundtrip() -> (usize, Option<String>) {
         8 => TlsMessageHandshake::ServerHello(TlsServerHelloContents::new(0x0303, &random, Some(&sid), 0x2f, 0, Some(&ext))),
         9 => TlsMessageHandshake::ServerHello(TlsServerHelloContents::new(0x0302, &random, None, 0x35, 1, None)),
         10 => TlsMessageHandshake::ServerHello(TlsServerHelloContents::new(0x0300, &random, None, 0x35, 0, None)),
+        // every legacy version with and without an extension block (the property quantifies over all versions)
+        12 => TlsMessageHandshake::ServerHello(TlsServerHelloContents::new(0x0301, &random, Some(&sid), 0x2f, 0, Some(&ext))),
+        13 => TlsMessageHandshake::ServerHello(TlsServerHelloContents::new(0x0301, &random, None, 0x2f, 0, None)),
+        14 => TlsMessageHandshake::ServerHello(TlsServerHelloContents::new(0x0302, &random, None, 0x2f, 0, Some(&ext))),
+        15 => TlsMessageHandshake::ServerHello(TlsServerHelloContents::new(0x0303, &random, None, 0x2f, 0, None)),
+        16 => TlsMessageHandshake::ClientHello(TlsClientHelloContents::new(0x0300, &random, None, vec![TlsCipherSuiteID(0x0a)], vec![TlsCompressionID(0)], None)),
+        17 => TlsMessageHandshake::ClientHello(TlsClientHelloContents::new(0x0302, &random, Some(&sid), vec![TlsCipherSuiteID(0x0a)], vec![TlsCompressionID(0), TlsCompressionID(1)], Some(&ext))),
         _ => TlsMessageHandshake::ServerHelloV13Draft18(TlsServerHelloV13Draft18Contents { version: TlsVersion(0x7f12), random: &random, cipher: TlsCipherSuiteID(0x1301), ext: Some(&ext) }),
     } };
     let mut tried = 0;
@@ -263,22 +270,27 @@ pub fn check_serializer_roundtrip() -> (usize, Option<String>) {
         }
         None
     };
-    for a in 0..12 { for b in 0..13 {
+    for a in 0..18 { for b in 0..19 {
         tried += 1;
         let mut msgs = vec![TlsMessage::Handshake(hs(a))];
-        if b < 12 { msgs.push(TlsMessage::Handshake(hs(b))); }
+        if b < 18 { msgs.push(TlsMessage::Handshake(hs(b))); }
         if let Some(d) = check_record(msgs, 0x16, format!("handshake messages #{} #{}", a, b)) { return (tried, Some(d)); }
     } }
     tried += 1;
     if let Some(d) = check_record(vec![TlsMessage::ChangeCipherSpec], 0x14, "ChangeCipherSpec".into()) { return (tried, Some(d)); }
     // handshake-level: every message parses back alone, u24 length == body length
-    for a in 0..12 {
+    for a in 0..18 {
         tried += 1;
         let m = hs(a);
         let b = match m.serialize() { Ok(b) => b, Err(e) => return (tried, Some(format!("serializing handshake message #{} failed: {:?}", a, e))) };
         let l = ((b[1] as usize) << 16) | ((b[2] as usize) << 8) | b[3] as usize;
         if l != b.len() - 4 { return (tried, Some(format!("handshake message #{}: u24 length {} != body length {}", a, l, b.len() - 4))); }
-        match parse_tls_message_handshake(&b) { Ok((rem, _)) if rem.is_empty() => {}, other => return (tried, Some(format!("handshake message #{} does not parse back completely: {:?}", a, other.map(|(r, _)| r.len())))) }
+        match parse_tls_message_handshake(&b) {
+            Ok((rem, TlsMessage::Handshake(back))) if rem.is_empty() => {
+                match back.serialize() { Ok(b2) => if b2 != b { return (tried, Some(format!("handshake message #{}: re-serializing the parsed message gives different bytes (a field was lost or changed on the way back)", a))); },
+                                         Err(e) => return (tried, Some(format!("handshake message #{}: re-serialization failed: {:?}", a, e))) }
+            }
+            other => return (tried, Some(format!("handshake message #{} does not parse back completely: {:?}", a, other.map(|(r, _)| r.len())))) }
     }
     // extensions
     let name = *b"ab";
